@@ -132,6 +132,17 @@ CHECKS = {
          "that half of the property is outside the claim. Known finding KF-C11-estimate-tolerance (eps acceptance window).",
     technique="symbolic execution of real code (CrossHair/z3) vs tiling / round-trip oracles",
     ref="DESIGN.md §2 C11"),
+ "C09": dict(
+    text="Symbolic execution of add_segments/get_paths/unfold_paths/Path/ScoreVariant.create_variant_part/new_part_from_path/"
+         "unfold_part_maximal/unfold_part_minimal/iter_unfolded_parts on repeat-structure templates (none, simple repeat at start/middle, two "
+         "independent repeats, first/second ending, da capo al fine) whose section lengths are symbolic: length = sum of visited sections, "
+         "every note once per visit at the shifted position with unchanged pitch/voice/staff and suffixed id, no repeat/jump objects left, "
+         "tie/slur/time-point references inside the copy, variant count, equal part for no repeats, original unchanged (fingerprint).",
+    note="Structure is concrete per template (dal segno/coda, nested repeats, three endings are outside); two lengths symbolic, others pinned. "
+         "Warning formatting is stubbed and format(int) kept lazy (opt-in CrossHair patch). Known findings: Segment objects cached on the original "
+         "part (ignored by the fingerprint while listed) and full-extent copies of objects crossing a jump.",
+    technique="symbolic execution of real code (CrossHair/z3) vs visit-sequence oracle",
+    ref="DESIGN.md §2 C09"),
 }
 NOT_APPLICABLE = {
  "C18": "float32/transcendental codec chain (log2, 2**x, mean/std, symbolic/symbolic division) over ~600 lines of vectorised numpy: non-linear with transcendental terms, z3 answers unknown; no sound bounded encoding within reach (DESIGN.md §2 C18)",
